@@ -144,6 +144,7 @@ var propImports = map[string][]imp{
 		{"C06.11/E3", "C11", "subscription state is accessed under the socket lock", []string{"C11.1/E3|protocol/sub", "C11.1/E3|protocol/xsub", "C11.1/E3|protocol/xpub"}},
 	},
 	"C07": {
+		{"C07.22/survey-timer", "C10", "a survey expires at its survey time: the timer that ends it is armed where the survey starts and by nothing else (re-arming it when an option changes restarts the clock, and late responses are delivered)", []string{"C10.16/timer-discipline|protocol/surveyor"}},
 		{"C07.21/derived-coherent", "C11", "every connected respondent is sent each survey: a list of respondents kept beside the table of pipes is rebuilt or cleared in the same critical section as every change of the table", []string{"C11.16/derived-coherent"}},
 		{"C07.20/id-freshness", "C13", "a raw RESPONDENT routes an answer by the id of the connection the survey came in on: the id of a surveyor that has gone is not handed to the next one to connect", []string{"C13.8/allocator"}},
 		{"C07.17/fresh-backing", "C17", "each survey's backtrace lives in memory of its own", []string{"C17.7/fresh-backing-per-message|protocol/xrespondent", "C17.7/fresh-backing-per-message|protocol/respondent", "C17.7/fresh-backing-per-message|protocol/xsurveyor", "C17.7/fresh-backing-per-message|protocol/surveyor"}},
@@ -151,6 +152,7 @@ var propImports = map[string][]imp{
 		{"C07.16/E3", "C11", "survey state is accessed under the socket lock", []string{"C11.1/E3|protocol/surveyor", "C11.1/E3|protocol/xsurveyor", "C11.1/E3|protocol/respondent", "C11.1/E3|protocol/xrespondent"}},
 	},
 	"C08": {
+		{"C08.19/send-contract", "C17", "a message broadcast to several peers is released once per peer: a transport or the core that releases it on a failed write — which the per-peer sender then releases again — recycles the buffer while a slower peer still holds it, and that peer receives another message's bytes", []string{"C17.5/send-contract|transport", "C17.5/send-contract|internal/core", "C17.1/E5|transport", "C17.1/E5|internal/core"}},
 		{"C08.18/derived-coherent", "C11", "BUS and STAR reach every other member: a list of members kept beside the table of pipes is rebuilt or cleared in the same critical section as every change of the table", []string{"C11.16/derived-coherent"}},
 		{"C08.17/waited-channel-stable", "C19", "a STAR receiver waiting for room in the socket's receive queue, and a per-peer sender waiting on its queue, keep forwarding after a queue option is changed: a goroutine left on a replaced channel stops that peer's traffic for good", []string{"C19.21/waited-channel-stable|protocol/xstar", "C19.21/waited-channel-stable|protocol/xbus"}},
 		{"C08.16/redial-timer", "C14", "one connection per dialer: the redial timer is armed only by the two places that schedule a redial (a spent timer re-armed by an option setter dials a second connection, and every message then arrives twice)", []string{"C14.13/timer-discipline|redialer"}},
@@ -162,6 +164,7 @@ var propImports = map[string][]imp{
 		{"C08.11/E3", "C11", "peer tables are accessed under the socket lock", []string{"C11.1/E3|protocol/xbus", "C11.1/E3|protocol/xstar"}},
 	},
 	"C09": {
+		{"C09.19/send-contract", "C17", "a device's fan-out shares one message among its peers by reference count: a failed write releases one reference, at one layer", []string{"C17.5/send-contract|internal/core", "C17.5/send-contract|transport", "C17.1/E5|internal/core"}},
 		{"C09.18/frame-buffers-local", "C15", "a device's connections send concurrently: each frame's length prefix is built in memory of its own call, so payloads and routing words stay with their frame", []string{"C15.12/frame-buffers-local"}},
 		{"C09.16/id-freshness", "C13", "a routing word names the connection a request came in on: the id of a connection that has gone is not handed to the next one while replies addressed to it can still be in flight", []string{"C13.8/allocator"}},
 		{"C09.17/raw-fanout", "C07", "a survey device forwards through the raw surveyor socket: its fan-out offers every survey to every pipe whatever the queue length option", []string{"C07.19/raw-fanout"}},
@@ -173,12 +176,16 @@ var propImports = map[string][]imp{
 		{"C09.9/star-forward", "C08", "a STAR node forwards a private copy with the hop header intact whatever the local application does with its own copy", []string{"C08.4/star-forward"}},
 	},
 	"C10": {
+		{"C10.24/accept-loop", "C16", "a connection is known to the handshaker from the moment it is accepted: the accept loop itself performs no handshake step, so a peer stalled in one is reached by Close", []string{"C16.8/accept-loop"}},
+		{"C10.23/closer-leak", "C12", "no connection remains after Close: every connection a transport obtains is closed or handed to a pipe on every path, so that something the socket closes owns it (a connection dropped on a refusing path outlives the socket)", []string{"C12.16/closer-leak"}},
 		{"C10.22/dialer-list", "C13", "Close closes the dialers in the socket's list: the list holds exactly the dialers created on the socket, and nothing but their creation writes it (a dialer dropped from the list keeps dialling after Close)", []string{"C13.14/core-state-writers|writers-of-dialers", "C13.14/core-state-writers|writers-of-listeners"}},
 		{"C10.20/nil-safe", "C12", "tear-down clears optional fields (timers, listeners, the peer): a call made after Close, or a Close of something that never started, fails or does nothing instead of dereferencing what is no longer there", []string{"C12.18/nil-safe"}},
 		{"C10.19/lock-order", "C11", "Close takes the socket's and the endpoints' locks: two paths that take them in opposite orders can leave both held for ever, and Close never returns", []string{"C11.2/E2"}},
 		{"C10.12/E10c", "C19", "a queue that a goroutine re-fills under the socket lock has room for it: otherwise that goroutine blocks holding the lock and Close never returns", []string{"C19.2/E10c"}},
 	},
 	"C11": {
+		{"C11.19/deadline-per-call", "C18", "each blocked call waits on a deadline of its own: a timer shared by the callers of one socket fires for one of them only", []string{"C18.1/deadline-select"}},
+		{"C11.18/no-wait-under-lock", "C12", "never deadlock: no wait for the network, a channel or an application callback while a library lock is held (one silent peer would block every call that needs the lock)", []string{"C12.2/E4"}},
 		{"C11.17/req-timers", "C18", "the library's own timer goroutines act only on the request they were armed for: a send deadline that fires after its send completed does not cancel the request that is waiting for its reply (Recv would return a result no sequential use allows)", []string{"C18.3/req-timers"}},
 		{"C11.15/nil-safe", "C12", "concurrent calls never crash the process: no use through an optional field where the module's own tests and assignments do not establish it, and no assignment into a map that may not have been made", []string{"C12.18/nil-safe"}},
 		{"C11.13/unsubscribe-prune", "C06", "unsubscribe prunes by draining the old queue into a fresh one without blocking: receivers take from the queue without the socket lock, so a pass that counts the queue and then receives that many times can block for ever holding the lock", []string{"C06.3/unsubscribe", "C06.9/queue-swap-wakes"}},
@@ -205,6 +212,7 @@ var propImports = map[string][]imp{
 		{"C13.11/handshake", "C16", "a connection that fails its handshake yields no pipe and does not end the accept loop", []string{"C16.6/handshake-validation"}},
 	},
 	"C14": {
+		{"C14.17/dialer-configuration", "C15", "a dialer re-establishes its connection however long it has existed: the operating system's dialer is configured with relative settings only (keep-alive, timeout), never with an absolute deadline fixed when the mangos dialer was created", []string{"C15.14/std-config-fields|net.Dialer", "C15.14/std-config-fields|websocket.Dialer"}},
 		{"C14.15/option-ranges", "C19", "each reconnect option accepts every non-negative duration whatever the other is set to: the socket forwards them one at a time and ignores a refusal, so a cross-check between them leaves the dialer on its old values", []string{"C19.2/ranges|internal/core.(*dialer)"}},
 		{"C14.14/option-stores", "C19", "each reconnect option writes its own field: the current delay is changed only by the back-off and the reset, never by setting the maximum", []string{"C19.3/set-get-symmetry|internal/core.(*dialer)"}},
 		{"C14.11/dial-returns", "C16", "every handshake outcome is reported to the Dial that waits for it: otherwise the dialer never learns of the failure and never retries", []string{"C16.5/handshaker|worker/"}},
@@ -234,6 +242,8 @@ var propImports = map[string][]imp{
 		{"C17.8/api-copies", "C01", "Recv hands out a copy of the body whatever its size; the message goes back to the pool", []string{"C01.8/api-copies"}},
 	},
 	"C18": {
+		{"C18.16/macat-durations", "C20", "macat hands the socket the deadline it was given: bare numbers are whole seconds (a fraction is refused rather than truncated), and a deadline that was not given is never applied", []string{"C20.4/duration", "C20.18/unset-deadline-never-applied"}},
+		{"C18.15/queue-room", "C19", "a Recv never hangs beyond its deadline on the socket lock: a receiver goroutine that re-sends into a context's queue while holding the lock needs room in it, so a queue length of 0 is refused", []string{"C19.2/E10c"}},
 		{"C18.14/waited-channel-stable", "C19", "a call parked on a channel it took from a field is woken when the field is given another channel: otherwise it times out with a message waiting in the new one, or waits for ever", []string{"C19.21/waited-channel-stable"}},
 		{"C18.13/queue-swap-wakes", "C19", "a receiver blocked on a queue that is replaced is woken to look at the new one (otherwise it times out with a message waiting, or waits for ever)", []string{"C19.8/queue-swap-wakes"}},
 		{"C18.12/timer-fields", "C11", "deadline timers and deadline values are read and written under the socket lock: a timer stopped or replaced outside it is the wrong call's timer", []string{"C11.1/E3|Timer", "C11.1/E3|Expire", "C11.1/E3|Deadline"}},
@@ -241,6 +251,7 @@ var propImports = map[string][]imp{
 		{"C18.10/inheritance", "C19", "a new context starts with the deadlines configured on the socket (send from send, receive from receive)", []string{"C19.4/inheritance"}},
 	},
 	"C19": {
+		{"C19.23/fail-no-peers-switch", "C18", "OptionFailNoPeers takes effect both ways: after it is switched off a send waits for a peer again (the channel that fails senders is replaced where it was closed, not left closed until the next peer)", []string{"C18.4/fail-no-peers"}},
 		{"C19.22/option-value-copied", "C06", "an accepted subscription is the bytes given at the time of the call: the stored topic is a copy, so what Get, matching and Unsubscribe see does not change when the caller reuses its buffer", []string{"C06.3/unsubscribe|subscription-is-a-copy"}},
 		{"C19.17/reconnect-reset", "C14", "ReconnectTime takes effect as documented whatever MaxReconnectTime is: after a successful attach the delay returns to it", []string{"C14.4/reset"}},
 		{"C19.18/ttl-range", "C09", "the TTL option accepts exactly 1..255 on every protocol that has it", []string{"C09.3/ttl-option"}},
